@@ -104,6 +104,17 @@ def run(ctx):
             stv, nv = norm(v)
             if stv != 'ok' or nv != n:
                 fail(v, 'the same code as its variant %r: %r' % (s, n), repr(nv if stv == 'ok' else stv), 'variant spellings normalise differently')
+    # very long white-space runs in the gaps that admit white space (a cap on how much is removed must not exist)
+    wide = [s for s in base if any(c.isspace() for c in s.strip())]
+    nwide = 0
+    for s in rng.sample(wide, min(len(wide), 150)) + [c for c in ['DT 1.5 kg', 'SP 7.26 K', '400 H 84.0cm 8.5m', '3000 SC', ' 100 '] if PE.match(c.strip())]:
+        for ws, k in ((' ', 12), (' ', 40), ('\t', 33), (' \t', 50)):
+            v = ''.join(ws * k if c.isspace() else c for c in s)
+            if not PE.match(v.strip()) or famvec(v.strip()) != famvec(s.strip()): continue
+            st0, n0 = norm(s); stv, nv = norm(v); nwide += 1
+            if stv != st0 or nv != n0 or (stv == 'ok' and any(c.isspace() for c in nv)):
+                fail(v, 'the same code as %r with ordinary spacing: %r' % (s, n0), repr(nv if stv == 'ok' else stv), 'long white-space runs normalise differently')
+    ctx.count(nwide, 'long_whitespace_variants')
     for s in misses:
         accepted(s)
         if PE.match(s.strip()): continue
